@@ -625,6 +625,19 @@ def rule_conv(ctx):
                        "it is emitted as the raw object (json.dumps fails)", []))
     else:
         r.ok()
+    # type -> name by exact lookup: a subclass walk over the table names bool as "int" (bool is a subclass of int)
+    inv = writer.module.constants.get("INV_DTYPE_LOOKUP")
+    inv_keys = {norm(k) for k in inv.keys} if isinstance(inv, ast.Dict) else set()
+    called = {c.func.id for c in ast.walk(writer.node) if isinstance(c, ast.Call) and isinstance(c.func, ast.Name) and c.func.id in writer.module.functions}
+    for g in [writer] + [writer.module.functions[n] for n in sorted(called)]:
+        for n in ast.walk(g.node):
+            if isinstance(n, ast.Call) and isinstance(n.func, ast.Name) and n.func.id == "issubclass" and "INV_DTYPE_LOOKUP" in ast.unparse(g.node):
+                inst = {"conversion": f"type -> name by issubclass in {g.qualname}", "table has both int and bool": {"int", "bool"} <= inv_keys}
+                r.instances.append(inst)
+                if {"int", "bool"} <= inv_keys:
+                    r.fail(Finding("R-CONV", f"R-CONV|{g.qualname}|issubclass-naming", f"{g.file}:{n.lineno}",
+                                   f"`{norm(n)}`: naming a type by the first table entry it is a subclass of gives `bool` the name of `int` (bool is a subclass of int, and both are in the table): "
+                                   f"Value.dtype.equal_to(bool) is written as 'int' and rebuilt as a different condition", []))
     # combinations recurse into both children under their own symbol
     comb = prog.flat("conditions.ConditionBinaryOp.to_json_like")
     ctxt = ast.unparse(comb.node)
